@@ -154,7 +154,15 @@ func vfCorpusC01() []*vfWorldCase {
 	foreign := &vfWorldCase{Kind: "corpus", Script: vfScript{Cfg: vfWorldCfg{EndSession: true, GraceSec: 60, Excluded: []string{"/public"}}, Browsers: 1, Actions: []vfAction{
 		{Kind: "mint", Browser: 0, Mint: &vfMintSpec{Auth: true, Email: "a@example.com", Tok: vfPlainTok("a@example.com", 3600), KeyB: true}},
 		vfGated(0, 0, "/app", 1), vfGated(0, 0, "/x/public", 1), vfGated(0, 0, "/public/x", 1)}}}
-	return []*vfWorldCase{sse, foreign}
+	// a refresh grant answered without an ID token (or with an unacceptable one) must not keep an expired session alive
+	stale := func(kind string, js bool, spec *vfTokSpec) *vfWorldCase {
+		return &vfWorldCase{Kind: "corpus", Script: vfScript{Cfg: vfWorldCfg{EndSession: true, GraceSec: 60}, Browsers: 1, Actions: []vfAction{
+			{Kind: "mint", Browser: 0, Mint: &vfMintSpec{Auth: true, Email: "a@example.com", Tok: vfTokForState(nil, "expired"), RefreshLen: 24}},
+			vfReqAct(0, 0, "GET", "/app", 1, func(q *vfReq) { q.AcceptJS = js; q.Script = &vfTokenScript{Kind: kind, Spec: spec} }),
+			vfGated(0, 0, "/app", 1)}}}
+	}
+	return []*vfWorldCase{sse, foreign, stale("no_id_token", false, nil), stale("no_id_token", true, nil),
+		stale("ok", false, vfTokForState(nil, "expired")), stale("ok", false, vfTokForState(nil, "bad_sig"))}
 }
 
 // ---------------------------------------------------------------- C03: state, nonce, PKCE binding
